@@ -542,3 +542,297 @@ Proof.
   rewrite !hartree_is_electronic_sum.
   now rewrite (transform_is_backtransformed_P np V T P n p HV HT HL).
 Qed.
+
+(* a decidable sufficient condition for [arr_ok]: V is an n x n array of vectors of length np.
+   (The runner reports this bit for the array of every generated case, see Extract/RunEsp.v.) *)
+Definition squareb (n np : nat) (V : list (list (list F))) : bool :=
+  Nat.eqb (length V) n &&
+  forallb (fun row => Nat.eqb (length row) n && forallb (fun v => Nat.eqb (length v) np) row) V.
+
+Lemma squareb_arr_ok n np V : squareb n np V = true -> arr_ok np V.
+Proof.
+  unfold squareb. rewrite andb_true_iff, Nat.eqb_eq, forallb_forall. intros [L H].
+  apply (square_arr_ok n np V L). apply Forall_forall. intros row Hrow.
+  specialize (H row Hrow). rewrite andb_true_iff, Nat.eqb_eq, forallb_forall in H.
+  destruct H as [Lr Hv]. split; [exact Lr|]. apply Forall_forall. intros v Hin. right.
+  now apply Nat.eqb_eq, Hv.
+Qed.
+
+Lemma square_symmetric_spec P :
+  (forall x y, feqb K x y = true <-> x = y) ->
+  square_symmetric K P = true <->
+  Forall (fun row => length row = length P) P /\
+  forall i j, (i < length P)%nat -> (j < length P)%nat -> pent P i j = pent P j i.
+Proof.
+  intros Heq. unfold square_symmetric. rewrite andb_true_iff, !forallb_forall, Forall_forall.
+  split; intros [A B]; split.
+  - intros r Hr. now apply Nat.eqb_eq, A.
+  - intros i j Hi Hj. apply Heq.
+    assert (Ii : In i (seq 0 (length P))) by (apply in_seq; lia).
+    assert (Ij : In j (seq 0 (length P))) by (apply in_seq; lia).
+    specialize (B i Ii). rewrite forallb_forall in B. exact (B j Ij).
+  - intros r Hr. now apply Nat.eqb_eq, A.
+  - intros i Hi. apply forallb_forall. intros j Hj. apply in_seq in Hi. apply in_seq in Hj.
+    apply Heq. apply B; lia.
+Qed.
+
+Lemma backtransform_symmetric T P n a b :
+  (forall i j, (i < length P)%nat -> (j < length P)%nat -> pent P i j = pent P j i) ->
+  (a < n)%nat -> (b < n)%nat ->
+  pent (backtransform T P n) a b = pent (backtransform T P n) b a.
+Proof.
+  intros HP Ha Hb. unfold pent at 1 2, backtransform.
+  rewrite nth_mk by assumption. rewrite nth_mk by assumption.
+  rewrite nth_mk by assumption. rewrite nth_mk by assumption.
+  rewrite sumn_swap. apply sumn_ext'. intros i Hi. apply sumn_ext'. intros j Hj.
+  rewrite (HP j i Hj Hi). ring.
+Qed.
+
+(* electrostatic_potential with a transform = electrostatic_potential of the untransformed basis
+   with the density matrix transformed back; T may have any number of rows *)
+Lemma esp_transform_is_backtransformed basis P points ncoords ncharges T thr v :
+  squareb (nfun_basis basis) (length points)
+          (point_charge_integral K (unit_neg_points K points) basis None) = true ->
+  esp K basis P points ncoords ncharges (Some T) thr = Some v ->
+  v = esp_values K (point_charge_integral K (unit_neg_points K points) basis None)
+        (backtransform T P (nfun_basis basis)) points (combine ncoords ncharges) thr
+  /\ ((forall x y, feqb K x y = true <-> x = y) ->
+      esp K basis (backtransform T P (nfun_basis basis)) points ncoords ncharges None thr = Some v).
+Proof.
+  intros Hsq E. apply squareb_arr_ok in Hsq.
+  pose proof (proj1 (esp_accepts basis P points ncoords ncharges (Some T) thr) (ex_intro _ v E))
+    as (C1 & C2 & C3 & C4).
+  apply size_ok_transform in C4. destruct C4 as [LT HT].
+  unfold esp, esp_with in E. rewrite C1, C2, Nat.eqb_refl, C3 in E.
+  destruct (size_ok (nfun_basis basis) P (Some T)); [|discriminate].
+  cbn [andb negb] in E. injection E as E.
+  rewrite (esp_values_transform _ _ T P (nfun_basis basis) points _ thr Hsq HT LT) in E.
+  cbn [transformed_ints] in E. split; [now symmetry|].
+  intros Heq. unfold esp, esp_with.
+  assert (S : square_symmetric K (backtransform T P (nfun_basis basis)) = true).
+  { apply (square_symmetric_spec _ Heq).
+    assert (LB : length (backtransform T P (nfun_basis basis)) = nfun_basis basis)
+      by (unfold backtransform; apply mk_length).
+    rewrite LB. split.
+    - unfold backtransform. apply Forall_forall. intros r Hr. apply in_map_iff in Hr.
+      destruct Hr as [a [<- _]]. apply mk_length.
+    - intros a b Ha Hb. apply backtransform_symmetric; try assumption.
+      apply (proj1 (square_symmetric_spec P Heq) C1). }
+  rewrite S, C2, Nat.eqb_refl, C3. cbn [andb negb size_ok].
+  replace (length (backtransform T P (nfun_basis basis))) with (nfun_basis basis)
+    by (unfold backtransform; now rewrite mk_length).
+  rewrite Nat.eqb_refl. cbn [transformed_ints]. now rewrite E.
+Qed.
+
+End P.
+
+(* ------------------------------------------------------------------ *)
+(* Part 2: the reals (real square root)                                 *)
+(* ------------------------------------------------------------------ *)
+From Coq Require Import Reals Lra Psatz RealField.
+Local Open Scope R_scope.
+
+Definition Rleb_e (x y : R) : bool := if Rle_dec x y then true else false.
+Definition Reqb_e (x y : R) : bool := if Req_EM_T x y then true else false.
+
+(* the model's number interface at the real numbers, with the real sqrt *)
+Definition RKe : Fops R :=
+  mkFops R 0 1 Rplus Rmult Rminus Ropp Rdiv Rinv Rleb_e Reqb_e PI sqrt exp ln (fun _ _ => 0) (fun x => x).
+
+Lemma RKe_field : is_field RKe.
+Proof. exact Rfield. Qed.
+
+Lemma RKe_eqb x y : feqb RKe x y = true <-> x = y.
+Proof. cbn [feqb RKe]. unfold Reqb_e. destruct (Req_EM_T x y); split; intros; auto; discriminate. Qed.
+
+Lemma fltb_R x y : fltb RKe x y = true <-> x < y.
+Proof.
+  unfold fltb. cbn [fleb RKe]. unfold Rleb_e.
+  destruct (Rle_dec y x); cbn [negb]; split; intros; try discriminate; try lra; auto.
+Qed.
+
+Definition Rpt : Type := (R * R * R)%type.
+Definition edist2 (p n : Rpt) : R :=
+  (fst (fst p) - fst (fst n))² + (snd (fst p) - snd (fst n))² + (snd p - snd n)².
+
+Lemma dist2_R p n : Esp.dist2 RKe p n = edist2 p n.
+Proof. reflexivity. Qed.
+
+Lemma edist2_nonneg p n : 0 <= edist2 p n.
+Proof.
+  unfold edist2. pose proof (Rle_0_sqr (fst (fst p) - fst (fst n))).
+  pose proof (Rle_0_sqr (snd (fst p) - snd (fst n))). pose proof (Rle_0_sqr (snd p - snd n)). lra.
+Qed.
+
+(* the model's distance is the Euclidean distance *)
+Lemma dist_R p n : Esp.dist RKe p n = sqrt (edist2 p n).
+Proof. reflexivity. Qed.
+
+(* a nucleus is dropped for a point exactly when its distance to the point is below the threshold *)
+Lemma mask_iff_distance_R thr p n : masked RKe thr p n = true <-> sqrt (edist2 p n) < thr.
+Proof. unfold masked. rewrite dist_R. apply fltb_R. Qed.
+
+(* ... equivalently, in squared distances (no square root), for the admissible thresholds *)
+Lemma mask_iff_sqdistance_R thr p n : 0 <= thr ->
+  (masked RKe thr p n = true <-> edist2 p n < thr * thr).
+Proof.
+  intros Ht. rewrite mask_iff_distance_R.
+  pose proof (edist2_nonneg p n) as Hd. pose proof (sqrt_pos (edist2 p n)) as Hs.
+  pose proof (sqrt_sqrt _ Hd) as Hss. generalize dependent (sqrt (edist2 p n)). intros s Hs Hss.
+  rewrite <- Hss. split; intros H; nra.
+Qed.
+
+(* ... whatever the charge: the contribution is 0 when dropped and Z/d otherwise, for every Z *)
+Lemma nuc_term_R thr p n Z :
+  (sqrt (edist2 p n) < thr -> nuc_term RKe thr p (n, Z) = 0) /\
+  (~ sqrt (edist2 p n) < thr -> nuc_term RKe thr p (n, Z) = Z / sqrt (edist2 p n)).
+Proof.
+  split; intros H.
+  - apply nuc_term_masked. now apply mask_iff_distance_R.
+  - change (Z / sqrt (edist2 p n)) with (fdiv RKe Z (Esp.dist RKe p n)).
+    apply nuc_term_kept. destruct (masked RKe thr p n) eqn:E; [|reflexivity].
+    exfalso. apply H. now apply mask_iff_distance_R.
+Qed.
+
+(* the decision does not change when the charge changes sign or magnitude *)
+Lemma mask_charge_independent_R thr p n Z Z' : Z <> 0 -> Z' <> 0 -> 0 < edist2 p n ->
+  (nuc_term RKe thr p (n, Z) = 0 <-> nuc_term RKe thr p (n, Z') = 0).
+Proof.
+  intros HZ HZ' Hd.
+  assert (Hs : 0 < sqrt (edist2 p n)) by now apply sqrt_lt_R0.
+  assert (Q : forall z, z <> 0 -> (nuc_term RKe thr p (n, z) = 0 <-> masked RKe thr p n = true)).
+  { intros z Hz. unfold nuc_term. cbn [fst snd]. destruct (masked RKe thr p n); [tauto|].
+    split; [|discriminate]. intros H. exfalso. rewrite dist_R in H. cbn [fdiv RKe f0] in H.
+    apply Hz. apply (Rmult_eq_reg_r (/ sqrt (edist2 p n))).
+    - unfold Rdiv in H. rewrite H. ring.
+    - apply Rinv_neq_0_compat. lra. }
+  rewrite (Q Z HZ), (Q Z' HZ'). tauto.
+Qed.
+
+(* threshold 0 (the default) drops nothing; a threshold beyond the distance drops the nucleus *)
+Lemma mask_threshold_zero_R p n : masked RKe 0 p n = false.
+Proof.
+  destruct (masked RKe 0 p n) eqn:E; [|reflexivity].
+  apply mask_iff_distance_R in E. pose proof (sqrt_pos (edist2 p n)). lra.
+Qed.
+
+Lemma all_masked_no_nuclear_term thr p ncoords ncharges :
+  (forall n, In n ncoords -> sqrt (edist2 p n) < thr) ->
+  nuclear_sum RKe thr ncoords ncharges p = 0.
+Proof.
+  intros H. unfold nuclear_sum. apply (sumn_zero RKe RKe_field). intros A HA.
+  unfold nuc_contrib. rewrite (proj2 (mask_iff_distance_R thr p _)); [reflexivity|].
+  apply H. apply nth_In. lia.
+Qed.
+
+(* negative thresholds are refused, non-negative ones accepted (given the other conditions) *)
+Lemma negative_threshold_refused basis P points ncoords ncharges T thr :
+  thr < 0 -> esp RKe basis P points ncoords ncharges T thr = None.
+Proof.
+  intros H. unfold esp, esp_with.
+  assert (E : fltb RKe thr (f0 RKe) = true) by (apply fltb_R; exact H).
+  rewrite E. cbn [negb]. now rewrite !andb_false_r.
+Qed.
+
+(* the pinned tree's rule (Z/d against 1/threshold) is NOT the documented one: a nucleus of
+   charge 4 at distance 1 was dropped for threshold 1/2, and a negative charge at distance 1 was
+   kept for threshold 2 *)
+Lemma pinned_rule_differs :
+  let p : Rpt := (1, 0, 0) in let n : Rpt := (0, 0, 0) in
+  nuc_term_pinned RKe (1/2) p (n, 4) = 0 /\ nuc_term RKe (1/2) p (n, 4) = 4 /\
+  nuc_term_pinned RKe 2 p (n, -1) = -1 /\ nuc_term RKe 2 p (n, -1) = 0.
+Proof.
+  cbv zeta.
+  assert (D : Esp.dist RKe (1, 0, 0) (0, 0, 0) = 1).
+  { rewrite dist_R. unfold edist2. cbn [fst snd]. replace ((1 - 0)² + (0 - 0)² + (0 - 0)²) with 1
+      by (unfold Rsqr; ring). apply sqrt_1. }
+  unfold nuc_term_pinned, nuc_term, masked. cbn [fst snd]. rewrite D. cbn [fdiv RKe f0 f1].
+  repeat split.
+  - rewrite (proj2 (fltb_R (1 / (1 / 2)) (4 / 1))) by lra. reflexivity.
+  - destruct (fltb RKe 1 (1 / 2)) eqn:E; [apply fltb_R in E; lra|]. field.
+  - destruct (fltb RKe (1 / 2) (-1 / 1)) eqn:E; [apply fltb_R in E; lra|]. field.
+  - rewrite (proj2 (fltb_R 1 2)) by lra. reflexivity.
+Qed.
+
+(* ------------------------------------------------------------------ *)
+(* Part 3: the executable instance (canonical rationals, oracle sqrt)   *)
+(* ------------------------------------------------------------------ *)
+From Coq Require Import QArith Qcanon.
+Local Close Scope R_scope.
+
+Lemma negb_Qle_bool (x y : Q) : negb (Qle_bool x y) = true <-> (y < x)%Q.
+Proof.
+  rewrite negb_true_iff. split; intros H.
+  - apply Qnot_le_lt. intros C. apply Qle_bool_iff in C. congruence.
+  - destruct (Qle_bool x y) eqn:E; [|reflexivity]. apply Qle_bool_iff in E.
+    exfalso. exact (Qlt_not_le _ _ H E).
+Qed.
+
+(* when the oracle value for the squared distance is its exact non-negative root, the mask of the
+   executable model is the squared-distance comparison: no rounding of the root is involved *)
+Lemma mask_iff_sqdistance_Qc ex opi osqrt oexp oln oboys (thr : Qc) (p n : Qc * Qc * Qc) :
+  let K := QcK ex opi osqrt oexp oln oboys in
+  (0 <= thr)%Qc ->
+  (0 <= osqrt (Esp.dist2 K p n))%Qc ->
+  (osqrt (Esp.dist2 K p n) * osqrt (Esp.dist2 K p n) = Esp.dist2 K p n)%Qc ->
+  (masked K thr p n = true <-> (Esp.dist2 K p n < thr * thr)%Qc).
+Proof.
+  intros K Ht Hs Hss. unfold masked, Esp.dist, fltb.
+  change (fsqrt K (Esp.dist2 K p n)) with (osqrt (Esp.dist2 K p n)).
+  change (fleb K) with qc_leb. unfold qc_leb.
+  set (d2 := Esp.dist2 K p n) in *. set (s := osqrt d2) in *. clearbody s. clearbody d2.
+  rewrite <- Hss. clear Hss d2.
+  rewrite negb_Qle_bool. unfold Qclt, Qcle, Qcmult in *.
+  change (this (Q2Qc (s * s))) with (Qred (s * s)).
+  change (this (Q2Qc (thr * thr))) with (Qred (thr * thr)).
+  rewrite !Qred_correct.
+  change (this (Q2Qc 0)) with 0%Q in *.
+  split; intros H; nra.
+Qed.
+
+(* satisfiable: a 3-4-5 geometry with a table oracle *)
+Lemma mask_Qc_example :
+  let sq := fun x : Qc => if Qc_eq_dec x (Q2Qc 25) then Q2Qc 5 else Q2Qc 0 in
+  let K := QcK true (Q2Qc 3) sq (fun x => x) (fun x => x) (fun _ x => x) in
+  let p : Qc * Qc * Qc := (Q2Qc 3, Q2Qc 4, Q2Qc 0) in
+  let n : Qc * Qc * Qc := (Q2Qc 0, Q2Qc 0, Q2Qc 0) in
+  (0 <= sq (Esp.dist2 K p n))%Qc /\
+  (sq (Esp.dist2 K p n) * sq (Esp.dist2 K p n) = Esp.dist2 K p n)%Qc /\
+  masked K (Q2Qc 5) p n = false /\ masked K (Q2Qc (5 + (1 # 1024))) p n = true.
+Proof.
+  cbv zeta. split; [vm_compute; congruence|]. split; [apply Qc_is_canon; vm_compute; reflexivity|].
+  split; vm_compute; reflexivity.
+Qed.
+
+(* the shape hypothesis of [esp_transform_is_backtransformed] is satisfiable (and is what the model
+   produces): an s shell and a spherical p shell, two points, any field and any numbers *)
+Lemma squareb_example {F} (K : Fops F) (x y : F) :
+  let basis := [mkShell F 0 x x x [y] [[y]] false [] [];
+                mkShell F 1 y x y [x; y] [[x; y]; [y; x]] true [] []] in
+  nfun_basis basis = 7%nat /\
+  squareb 7 2 (point_charge_integral K (unit_neg_points K [(x, y, x); (y, y, x)]) basis None) = true.
+Proof. cbv zeta. split; vm_compute; reflexivity. Qed.
+
+(* small facts used by Props/C14.v *)
+Local Open Scope nat_scope.
+Lemma charge_hyps_example :
+  (4 <> 0)%R /\ (-1 <> 0)%R /\ (0 < edist2 (1, 0, 0) (0, 0, 0))%R.
+Proof.
+  repeat split; try lra. unfold edist2, Rsqr. cbn [fst snd]. lra.
+Qed.
+
+Lemma backtransform_entry {F} (K : Fops F) (T P : list (list F)) n a b :
+  a < n -> b < n ->
+  nth b (nth a (backtransform K T P n) []) (f0 K)
+  = Tables.sumn (f0 K) (fadd K) (length P) (fun i => Tables.sumn (f0 K) (fadd K) (length P) (fun j =>
+      fmul K (fmul K (nth a (nth i T []) (f0 K)) (nth j (nth i P []) (f0 K))) (nth b (nth j T []) (f0 K)))).
+Proof.
+  intros Ha Hb. unfold backtransform. rewrite nth_mk by assumption. now rewrite nth_mk by assumption.
+Qed.
+
+Lemma arr_ok_example {F} (x : F) :
+  arr_ok 1 [[[x]; [x]]; [[x]; []]] /\ Forall (fun row => length row = 2) [[x; x]; [x; x]; [x; x]].
+Proof.
+  unfold arr_ok, vec_ok, Pv. cbn [hd length].
+  split; [split|]; repeat (apply Forall_cons || apply Forall_nil); auto.
+Qed.
